@@ -43,6 +43,8 @@ func TestCheck(t *testing.T) {
 	}
 	c.Extra("registered_members_by_reflection", members)
 
+	retainPart(c, t)
+
 	// quick: (custom x pin) x dev(2) of the members; thorough adds custom x dev(3)
 	groups, ks := [][]string{{"custom", "pin"}}, []int{2}
 	if c.Thorough() {
